@@ -517,7 +517,7 @@ func observe(v *wsView, ev *eventSpec) []string {
 			tags = append(tags, "F41:generated-id-equals-synced-argument-id")
 		}
 		if p.Storage < firstUser {
-			tags = append(tags, "F42:generated-id-below-first-user-id")
+			tags = append(tags, "F44:generated-id-below-first-user-id")
 		}
 	}
 	var arg []rowSpec
